@@ -15,8 +15,8 @@ RULE = ("BFS over histories of callLater(d in {0,1,2}) with an optional one-step
         "every operation and inside every running call are compared with a dict-of-times reference. non-trivial "
         "= distinct (state, exercised case) pairs for transitions that ran a call, rescheduled or cancelled a "
         "call, or ran a script")
-BOUNDS = {"quick": "<= 4 live user calls, <= 2 scripted calls per history, depth 5",
-          "thorough": "<= 4 live user calls, <= 2 scripted calls per history, depth 6"}
+BOUNDS = {"quick": "<= 4 live user calls; depth 5 with <= 1 scripted call and depth 4 with <= 2 scripted calls per history",
+          "thorough": "<= 4 live user calls; depth 6 with <= 1 scripted call and depth 5 with <= 2 scripted calls per history"}
 ASSUMPTIONS = [
     "integer times: the reference and the Clock compute the same sums exactly",
     "canonical state = pending calls in creation order (time relative to now, script, rescheduled flag) + the "
@@ -26,11 +26,11 @@ ASSUMPTIONS = [
 ]
 MIN = {"quick": {"states": 1, "nontrivial": 1, "outcomes": 1}}
 
-DEPTH = {"quick": 5, "thorough": 6}
-SCRIPTED = {"quick": 1, "thorough": 2}
+# families (depth, max scripted calls per history) explored per tier
+FAMILIES = {"quick": [(5, 1), (4, 2)], "thorough": [(6, 1), (5, 2)]}
 CAP = 4
 SCRIPT_IDS = tuple(range(1, 13))
-SPLIT = 1
+SPLIT = {"quick": 1, "thorough": 2}
 
 
 def make():
@@ -42,7 +42,7 @@ def apply(tm, ev):
 
 
 def canon(tm):
-    return tm.canon()
+    return hash(tm.canon())    # PYTHONHASHSEED is fixed by ./check
 
 
 def _initial(prefix):
@@ -54,33 +54,36 @@ def _initial(prefix):
     return mk
 
 
-def _enabled(tier):
-    return lambda tm: tm.enabled(CAP, SCRIPTED[tier], SCRIPT_IDS)
+def _enabled(scripted):
+    return lambda tm: tm.enabled(CAP, scripted, SCRIPT_IDS)
 
 
 def shards(tier, seed):
-    out = [["pre", "clock", []]]
-    front = []
-    bfs(_initial([]), apply, _enabled(tier), canon, lambda st, h: (), SPLIT,
-        on_state=lambda st, h: front.append([list(e) for e in h]) if len(h) == SPLIT else None)
-    out.extend(["sub", "clock", h] for h in front)
+    out = []
+    split = SPLIT[tier]
+    for depth, scripted in FAMILIES[tier]:
+        out.append(["pre", [depth, scripted], []])
+        front = []
+        bfs(_initial([]), apply, _enabled(scripted), canon, lambda st, h: (), split,
+            on_state=lambda st, h: front.append([list(e) for e in h]) if len(h) == split else None)
+        out.extend(["sub", [depth, scripted], h] for h in front)
     return out
 
 
 def run_shard(shard, tier, seed):
-    mode, prefix = shard[0], [tuple(e) for e in shard[2]]
-    depth = SPLIT if mode == "pre" else DEPTH[tier] - SPLIT
+    mode, (fdepth, scripted), prefix = shard[0], shard[1], [tuple(e) for e in shard[2]]
+    depth = SPLIT[tier] if mode == "pre" else fdepth - SPLIT[tier]
     stats = Stats()
 
     def inv(tm, hist):
         fl = tm.last_flags
         if fl:
-            stats.nt((tm.canon(), tuple(sorted(fl))))
+            stats.nt((hash(tm.canon()), tuple(sorted(fl))))
             for f in fl:
                 stats.outcome(f)
         return tm.bad
 
-    res = bfs(_initial(prefix), apply, _enabled(tier), canon, inv, depth)
+    res = bfs(_initial(prefix), apply, _enabled(scripted), canon, inv, depth)
     pre = [list(e) for e in prefix]
     for i, (sig, detail, hist) in enumerate(res.violations):
         res.violations[i] = (sig, detail, pre + [list(e) for e in hist])
